@@ -118,6 +118,35 @@ def reserved_keys(rnd, n):
     return out
 
 
+def long_lists(rnd, n):
+    """Lists of a hundred elements and more (exactly 100, 101, 150), alone and merged with short lists of another type"""
+    out = []
+    for _ in range(n):
+        ln = rnd.choice([99, 100, 101, 150])
+        kind = rnd.choice(["str", "int", "mixed", "dicts"])
+        big = {"str": [f"s{i}" for i in range(ln)], "int": list(range(ln)), "mixed": [i if i % 7 else str(i) for i in range(ln)],
+               "dicts": [{"a": i} for i in range(ln)]}[kind]
+        other = rnd.choice([[1], ["x"], [], [None], [[1]]])
+        vs = rnd.choice([[big], [big, other], [other, big], [[big, other]], [{"k": big}, {"k": other}]])
+        out.append((rnd.choice([0, 1, 3]), vs))
+    return out
+
+
+def subset_typed_dicts(rnd, n):
+    """str-keyed dicts whose key sets are in a subset relation, sitting DIRECTLY in a tuple / under a non-str dict key, the
+    larger one first or last"""
+    out = []
+    for _ in range(n):
+        big = {"a": 1, "b": 2, "c": "x"}
+        ks = rnd.sample(["a", "b", "c"], rnd.choice([1, 2]))
+        small = {x: big[x] for x in ks}
+        pair = [big, small] if rnd.random() < 0.5 else [small, big]
+        wrap = rnd.choice(["tuple", "tuple", "intkey", "tuple2"])
+        vs = [{"tuple": (d,), "intkey": {1: d}, "tuple2": (1, d)}[wrap] for d in pair]
+        out.append((rnd.choice([3, 10]), vs))
+    return out
+
+
 def equal_hashables(rnd, n):
     """Sets / dict keys holding values that compare (and hash) equal but have different classes - 1, True, 1.0 and
     tuples of them - typed one after the other in one process: any memoisation keyed by equality shows up."""
@@ -149,6 +178,8 @@ def generate(seed, n_random, with_small_scope, extra_cases=()):
     raw.extend(equal_hashables(rnd, max(30, n_random // 40)))
     raw.extend(lying_keys(rnd, max(30, n_random // 40)))
     raw.extend(reserved_keys(rnd, max(40, n_random // 30)))
+    raw.extend(long_lists(rnd, max(12, n_random // 100)))
+    raw.extend(subset_typed_dicts(rnd, max(30, n_random // 40)))
     for i in range(n_random):
         k = rnd.choice(KS)
         raw.append((k, g.values()))
